@@ -6,15 +6,35 @@ Import ListNotations.
 Eval vm_compute in "THEOREM res_invariant"%string.
 Check res_invariant :
   forall (cf : cfg) (sched : list label),
-    1 <= cap cf ->
-    exists s, run cf sched (init cf) = Ok s /\ Inv cf s.
+    1 <= cap cf -> race_free cf sched (init cf) ->
+    exists s, run cf sched (init cf) = Ok s /\ Inv cf s /\ QInv cf s.
 Print Assumptions res_invariant.
+
+Eval vm_compute in "THEOREM res_invariant_all_schedules"%string.
+Check res_invariant_all_schedules :
+  forall (cf : cfg) (sched : list label) (s : state),
+    1 <= cap cf -> run cf sched (init cf) = Ok s -> Inv cf s.
+Print Assumptions res_invariant_all_schedules.
+
+Eval vm_compute in "THEOREM only_unused_push_can_panic"%string.
+Check only_unused_push_can_panic :
+  forall (cf : cfg) (l : label) (s : state),
+    Inv cf s ->
+    (exists s', step cf l s = Ok s' /\ Inv cf s') \/ (l = A_push /\ step cf l s = Panic QueueFull).
+Print Assumptions only_unused_push_can_panic.
 
 Eval vm_compute in "THEOREM res_invariant_inductive"%string.
 Check res_invariant_inductive :
   forall (cf : cfg) (l : label) (s : state),
-    Inv cf s -> exists s', step cf l s = Ok s' /\ Inv cf s'.
+    Inv cf s -> QInv cf s -> ~ racy l s ->
+    exists s', step cf l s = Ok s' /\ Inv cf s' /\ QInv cf s'.
 Print Assumptions res_invariant_inductive.
+
+Eval vm_compute in "THEOREM unused_full_refuted"%string.
+Check unused_full_refuted :
+  run (mkCfg false true 1) f22_sched (init (mkCfg false true 1)) = Panic QueueFull /\
+  ~ race_free (mkCfg false true 1) f22_sched (init (mkCfg false true 1)).
+Print Assumptions unused_full_refuted.
 
 Eval vm_compute in "THEOREM capacity_exact"%string.
 Check capacity_exact :
@@ -39,9 +59,9 @@ Eval vm_compute in "THEOREM prompt_removal"%string.
 Check prompt_removal :
   forall cf sched1 s1 k p sched2 s2,
     1 <= cap cf ->
-    run cf sched1 (init cf) = Ok s1 ->
+    race_free cf sched1 (init cf) -> run cf sched1 (init cf) = Ok s1 ->
     st_a s1 = AIdle -> resolve s1 k = Ok (Some p) -> In p (st_marked s1) ->
-    run cf sched2 s1 = Ok s2 -> st_callbacks s1 < st_callbacks s2 ->
+    race_free cf sched2 s1 -> run cf sched2 s1 = Ok s2 -> st_callbacks s1 < st_callbacks s2 ->
     resolve s2 k = Ok None /\ gone s2 k.
 Print Assumptions prompt_removal.
 
@@ -49,12 +69,23 @@ Eval vm_compute in "THEOREM prompt_removal_queued"%string.
 Check prompt_removal_queued :
   forall cf sched1 s1 k p sched2 s2,
     1 <= cap cf ->
-    run cf sched1 (init cf) = Ok s1 ->
+    race_free cf sched1 (init cf) -> run cf sched1 (init cf) = Ok s1 ->
     In (k, p) (st_newq s1) -> In p (st_marked s1) ->
-    run cf sched2 s1 = Ok s2 ->
+    race_free cf sched2 s1 -> run cf sched2 s1 = Ok s2 ->
     (st_callbacks s1 + 1 <= st_callbacks s2 -> resolve s2 k = Ok (Some p) \/ gone s2 k) /\
     (st_callbacks s1 + 2 <= st_callbacks s2 -> resolve s2 k = Ok None /\ gone s2 k).
 Print Assumptions prompt_removal_queued.
+
+Eval vm_compute in "THEOREM prompt_removal_refuted"%string.
+Check prompt_removal_refuted :
+  let cf := mkCfg true false 1 in
+  exists s1 s2,
+    run cf f22_prefix (init cf) = Ok s1 /\ st_a s1 = AIdle /\
+    resolve s1 (mkKey 0 1) = Ok (Some 1) /\ In 1 (st_marked s1) /\
+    run cf [A_start; A_remove; A_push; A_add; A_add] s1 = Ok s2 /\
+    st_callbacks s1 < st_callbacks s2 /\ st_a s2 = AIdle /\
+    resolve s2 (mkKey 0 1) = Ok (Some 1).
+Print Assumptions prompt_removal_refuted.
 
 Eval vm_compute in "THEOREM destroyed_on_caller"%string.
 Check destroyed_on_caller :
@@ -63,8 +94,8 @@ Check destroyed_on_caller :
     (forall p t, In (p, t) (st_destroyed s) -> t = Gameplay) /\
     NoDup (map fst (st_destroyed s)) /\
     Permutation (seq 0 (st_next s))
-                (map snd (st_newq s) ++ slot_payloads (aslots (st_ar s)) ++ st_unused s
-                     ++ map fst (st_destroyed s)) /\
+                (map snd (st_newq s) ++ slot_payloads (aslots (st_ar s))
+                     ++ (st_unused s ++ infl (st_inflight s)) ++ map fst (st_destroyed s)) /\
     (forall l s', thread_of l = Audio -> step cf l s = Ok s' ->
                   st_destroyed s' = st_destroyed s /\ st_next s' = st_next s).
 Print Assumptions destroyed_on_caller.
@@ -83,18 +114,21 @@ Print Assumptions no_stale_ids.
 
 Eval vm_compute in "THEOREM example_present"%string.
 Check example_present :
+  race_free ex_cf ex_sched_present (init ex_cf) /\
   exists s1, run ex_cf ex_sched_present (init ex_cf) = Ok s1 /\ st_a s1 = AIdle /\
              resolve s1 (mkKey 0 0) = Ok (Some 0) /\ In 0 (st_marked s1).
 Print Assumptions example_present.
 
 Eval vm_compute in "THEOREM example_queued"%string.
 Check example_queued :
+  race_free ex_cf ex_sched_queued (init ex_cf) /\
   exists s1, run ex_cf ex_sched_queued (init ex_cf) = Ok s1 /\
              In (mkKey 0 0, 0) (st_newq s1) /\ In 0 (st_marked s1).
 Print Assumptions example_queued.
 
 Eval vm_compute in "THEOREM example_reuse"%string.
 Check example_reuse :
+  race_free ex_cf ex_sched_reuse (init ex_cf) /\
   exists s, run ex_cf ex_sched_reuse (init ex_cf) = Ok s /\
             gone s (mkKey 0 0) /\ resolve s (mkKey 0 0) = Ok None /\
             resolve s (mkKey 0 1) = Ok (Some 2) /\ resolve s (mkKey 1 0) = Ok (Some 1) /\
